@@ -168,12 +168,56 @@ def install(sess):
         if indexer is not None and len(indexer) and int(np.min(indexer)) < -n: return "position < -n (numba would read out of bounds)"
         if indexer is not None and not check_in_bounds and len(indexer) and int(np.max(indexer)) >= n: return "unchecked position >= n"
     sess.wrap("groupby_lib.groupby.numba", "_group_by_reduce", requires=pre_gbr)
-    def pre_rap(x, y, reducer, counts=None):
+    def pre_rap(x, y, reducer, counts=None, y_counts=None):
         if len(x) != len(y): return "len(x) != len(y)"
         if counts is not None and len(counts) != len(x): return "len(counts) != len(x)"
+        if y_counts is not None and len(y_counts) != len(x): return "len(y_counts) != len(x)"
     sess.wrap("groupby_lib.groupby.numba", "reduce_array_pair", requires=pre_rap)
     def post_single(out, reduce_func_name, group_key, values, ngroups, mask=None):
         target, count = out
         if len(target) != ngroups or len(count) != ngroups: return "target/count must have one slot per group"
         if (np.asarray(count) < 0).any(): return "negative count"
     sess.wrap("groupby_lib.groupby.numba", "_apply_group_method_single_chunk", ensures=post_single)
+
+
+# ----------------------------------------------------------------------------- F tier: finite domains enumerated completely on the real functions
+def static_obligations(repo, tier):
+    """(F1) the accumulator table _build_target_for_groupby over every NumPy numeric/bool/temporal dtype x every reducer name the kernels are called with;
+    (F2) the name -> reducer resolution: every name the group_* wrappers pass resolves to the ScalarFuncs member whose contract is step_<name>, and the
+    merge reducer chosen by _group_func_wrap is the one L-merge is stated for ("sum" for sums and counts, the reducer itself otherwise)."""
+    import sys, importlib
+    from rtc import core
+    core.hygiene(0)
+    gn = importlib.import_module("groupby_lib.groupby.numba")
+    rows = []
+    dtypes = [np.dtype(x) for x in ("int8", "int16", "int32", "int64", "uint8", "uint16", "uint32", "uint64", "float32", "float64", "bool")]      # temporal values are viewed as int64 before they reach the table (_cast_timestamps_to_ints)
+    names = ["count", "nancount", "sum", "nansum", "nansum_squares", "min", "max", "nanmin", "nanmax", "first", "last"]
+    for dt in dtypes:
+        for nm in names:
+            name = f"numba.py::_build_target_for_groupby::table[{dt.name},{nm}]"
+            try: t = gn._build_target_for_groupby(dt, nm, 3)
+            except Exception as ex:
+                rows.append({"name": name, "tier": "F", "ok": dt.kind in "mM" and "sum" in nm and False, "detail": f"raised {type(ex).__name__}: {ex}", "case": {"dtype": dt.name, "op": nm}}); continue
+            if "count" in nm: exp_dt, exp_init = np.dtype(bool), False            # counts are collected in the separate count array; the target is a dummy
+            elif "sum" in nm:
+                exp_dt = np.dtype("uint64") if dt.kind == "u" else (np.dtype("int64") if dt.kind in "ib" else dt); exp_init = 0     # integer sums accumulate in 64 bits (C12)
+            else:
+                exp_dt = dt      # selection-type reducers keep the dtype (C12): the start value is the dtype's null (what is_null recognises), False for bool, max for unsigned
+                exp_init = {"i": lambda: np.iinfo(dt).min, "u": lambda: np.iinfo(dt).max, "f": lambda: np.nan, "b": lambda: False, "M": lambda: np.datetime64("NaT"), "m": lambda: np.timedelta64("NaT")}[dt.kind]()
+            ok = t.dtype == exp_dt and len(t) == 3
+            if ok:
+                for x in t:
+                    if C.is_null(exp_init): ok &= C.is_null(x)
+                    else: ok &= (x == exp_init)
+            rows.append({"name": name, "tier": "F", "ok": bool(ok), "detail": f"got dtype {t.dtype} start {t[0]!r}; expected {exp_dt} start {exp_init!r}", "case": {"dtype": dt.name, "op": nm}, "exhaustive": True})
+    # F2: names
+    for op, fname in sorted(FUNC.items()):
+        f = getattr(gn.ScalarFuncs, fname, None)
+        rows.append({"name": f"numba.py::ScalarFuncs::resolves[{op}->{fname}]", "tier": "F", "ok": f is not None and getattr(f, "py_func", f).__name__ == fname, "detail": str(f), "exhaustive": True})
+    import ast, inspect
+    src = open(repo + "/groupby_lib/groupby/numba.py").read(); tree = ast.parse(src)
+    fn = next(n for n in tree.body if isinstance(n, ast.FunctionDef) and n.name == "_group_func_wrap")
+    calls = [n for n in ast.walk(fn) if isinstance(n, ast.Call) and ast.unparse(n.func) == "combine_chunk_results_for_factorized_key"]
+    ok = len(calls) == 1 and ast.unparse(calls[0].args[0]).replace("'", '"') == '"sum" if counting or "sum" in reduce_func_name else reduce_func_name' and len(calls[0].args) == 3 and ast.unparse(calls[0].args[2]) == "counts"
+    rows.append({"name": "numba.py::_group_func_wrap::merge-reducer-and-counts", "tier": "S", "ok": bool(ok), "detail": ast.unparse(calls[0]) if calls else "no call found"})
+    return rows
